@@ -379,6 +379,7 @@ def run_update_family(ctx, n_quick, n_thorough):
     g = max(n // 4, 40)
     out = core.pool_map(d.lookalike_update, [(ctx.seed, i, {}) for i in range(g)])
     out += core.pool_map(d.twin_update, [(ctx.seed, i, {}) for i in range(g)])
+    out += core.pool_map(d.watermark_window, [(ctx.seed, i, {}) for i in range(max(g // 3, 20))])
     out += core.pool_map(d.canon_group, [(ctx.seed, i, {}) for i in range(g)])
     out += core.pool_map(d.transparent_group, [(ctx.seed, i, {}) for i in range(g)])
     recs += [r for o in out for r in o]
@@ -427,8 +428,6 @@ def run_api_growth(ctx, n):
     ext = dict((k, v) for k, v in ctx.other_props.items() if k.startswith('X'))
     ctx.extra['extension_records'] = len(recs)
     ctx.extra['extension_clauses_failed'] = ext
-    for k, v in ext.items():
-        print('EXT-FINDING: %s x%d (outside the listed properties; see DESIGN 20)' % (k, v))
 
 
 def c10(ctx):
